@@ -1,6 +1,7 @@
 package main
 
 import (
+	"runtime/pprof"
 	"crypto/sha1"
 	"encoding/json"
 	"flag"
@@ -180,7 +181,13 @@ func main() {
 	hashes := flag.Bool("hashes", true, "include source hashes of executed pint functions")
 	mkReplay := flag.String("mkreplay", "", "instead of running: write native replay overlay files into this directory and print overlay JSON")
 	selftest := flag.Bool("selftest", false, "check the solver plumbing and exit")
+	cpuprof := flag.String("cpuprofile", "", "write a CPU profile")
 	flag.Parse()
+	if *cpuprof != "" {
+		f, _ := os.Create(*cpuprof)
+		pprof.StartCPUProfile(f)
+		defer pprof.StopCPUProfile()
+	}
 	if *selftest {
 		os.Exit(selfTest())
 	}
@@ -280,6 +287,9 @@ func main() {
 			}
 		}
 		out["source_hashes"] = sourceHashes(l, seen)
+	}
+	if qsitesOn {
+		fmt.Fprintln(os.Stderr, "query sites:", qsites)
 	}
 	b, _ := json.MarshalIndent(out, "", " ")
 	if *outFile != "" {
